@@ -43,6 +43,7 @@ PROG = {
     ]
 }
 TAGS = [None, 'a', 'b']
+TAG_SETS = {'str': [None, 'a', 'b'], 'int': [None, 0, 1], 'strempty': [None, '', 'b']}
 PID_SETS = {
     'int': [11, 22, 33, 44],
     'str': ['p1', 'p2', 'p1x', 'zz'],
@@ -62,16 +63,27 @@ def enumerate_cases(tier, scope):
         for a in alphabet:
             for b in alphabet:
                 yield {'pid_kind': kind, 'ops': base_ops + [a, b, ['load', 0, None], ['load', 1, 'a'], ['list_all']]}
+    # falsy tags (0, '') are tags too: they must not collide with the untagged checkpoint
+    for tag_kind, falsy in (('int', 0), ('strempty', '')):
+        for kind in PID_SETS:
+            for seq in (
+                [['save', 0, None], ['progress', 0], ['save', 0, falsy], ['load', 0, None], ['load', 0, falsy], ['list_pid', 0]],
+                [['save', 0, falsy], ['progress', 0], ['save', 0, None], ['load', 0, falsy], ['delete', 0, None], ['load', 0, falsy], ['list_all']],
+                [['save', 0, falsy], ['delete', 0, falsy], ['load', 0, falsy], ['list_all'], ['save', 1, None], ['delete', 1, falsy], ['load', 1, None]],
+            ):
+                yield {'pid_kind': kind, 'tag_kind': tag_kind, 'ops': seq}
 
 
 @st.composite
 def _cases(draw, tier):
     n = draw(st.integers(1, 40))
     ops = []
+    tag_kind = draw(st.sampled_from(['str', 'str', 'int', 'strempty']))
+    tags = TAG_SETS[tag_kind]
     for _ in range(n):
         kind = draw(st.sampled_from(['save', 'save', 'save', 'load', 'load', 'list_all', 'list_pid', 'delete', 'delete_pid', 'progress', 'progress', 'run_loaded']))
         p = draw(st.integers(0, 3))
-        tag = draw(st.sampled_from(TAGS))
+        tag = draw(st.sampled_from(tags))
         if kind in ('save', 'progress'):
             p = draw(st.integers(0, 2))
             ops.append([kind, p, tag] if kind == 'save' else [kind, p])
@@ -81,7 +93,7 @@ def _cases(draw, tier):
             ops.append([kind, p])
         else:
             ops.append([kind])
-    return {'pid_kind': draw(st.sampled_from(['int', 'int', 'str', 'uuid'])), 'ops': ops}
+    return {'pid_kind': draw(st.sampled_from(['int', 'int', 'str', 'uuid'])), 'tag_kind': tag_kind, 'ops': ops}
 
 
 def strategy(tier):
